@@ -170,6 +170,13 @@ pub enum Profile {
     Cow,
     /// writes/discards with frequent flush + fsync pairs (C04, C05)
     Crashy,
+    /// fill, punch holes around slice boundaries, multi-cluster rewrites (C03, C08)
+    Frag,
+    /// crashy operations on the sparse geometry class (large virtual size, many L1
+    /// entries, several small L2 slices per table)
+    CrashySparse,
+    /// general operations on the sparse geometry class
+    Sparse,
 }
 
 pub fn pick_slice(rng: &mut Rng, bsb: u8, cb: usize, allow_default: bool) -> Option<(u8, usize)> {
@@ -194,7 +201,13 @@ pub fn gen_geometry(rng: &mut Rng, case: &mut Case) {
         13 => 128,
         _ => 48,
     };
-    let n = rng.range(4, max_clusters);
+    let mut n = rng.range(4, max_clusters);
+    // sparse class: a large virtual size (many L1 entries, several L2 slices per
+    // table far from each other) with the same small amount of data
+    let sparse = (cb == 10 || cb == 12) && rng.chance(1, 3);
+    if sparse {
+        n = rng.range(4096, 8192);
+    }
     let tail = if rng.chance(1, 4) { rng.below(cs / 512) * 512 } else { 0 };
     case.cb = cb;
     case.ro = ro;
@@ -202,6 +215,11 @@ pub fn gen_geometry(rng: &mut Rng, case: &mut Case) {
     case.bsb = rng.range(9, 12.min(cb as u64)) as u8;
     case.l2 = pick_slice(rng, case.bsb, cb, true);
     case.rb = pick_slice(rng, case.bsb, cb, true);
+    if sparse && rng.chance(2, 3) {
+        // small L2 slices: several per table
+        case.bsb = 9;
+        case.l2 = Some((9, (*rng.pick(&[2usize, 4, 8, 16])) << 9));
+    }
     if case.l2.is_none() != case.rb.is_none() && rng.chance(1, 2) {
         case.rb = case.l2;
     }
@@ -273,6 +291,33 @@ pub fn gen_case(seed: u64, id: usize, profile: Profile, nops: usize) -> Case {
         ops: Vec::new(),
     };
     gen_geometry(&mut rng, &mut c);
+    if profile == Profile::Frag {
+        // several refblock slices per refblock, host usage crossing slice boundaries
+        c.cb = *rng.pick(&[10usize, 11]);
+        c.bsb = 9;
+        c.ro = 5;
+        let cs = 1u64 << c.cb;
+        c.size = rng.range(130, 200) * cs;
+        c.rb = Some((9, (*rng.pick(&[2usize, 3, 4, 8])) << 9));
+        c.l2 = pick_slice(&mut rng, 9, c.cb, false);
+    }
+    if profile == Profile::CrashySparse || profile == Profile::Sparse {
+        c.cb = *rng.pick(&[10usize, 12, 12]);
+        let cs = 1u64 << c.cb;
+        c.ro = rng.range(3, 6) as u8;
+        c.bsb = 9;
+        c.size = rng.range(6000, 8192) * cs;
+        c.l2 = Some((9, (*rng.pick(&[2usize, 4, 8, 16])) << 9));
+        c.rb = pick_slice(&mut rng, 9, c.cb, true);
+    }
+    if profile == Profile::Validate && rng.chance(1, 2) {
+        // virtual size that is a multiple of 512 but not of the block size
+        let bs = 1u64 << c.bsb;
+        let cs = 1u64 << c.cb;
+        if bs > 512 {
+            c.size = c.size / cs * cs + 512 * rng.range(1, bs / 512 - 1);
+        }
+    }
     gen_ops(&mut rng, &mut c, profile, nops);
     c
 }
@@ -382,9 +427,24 @@ pub fn built_layouts(seed: u64, id: usize, kind: &str) -> (crate::build::Layout,
     (top, back, rng)
 }
 
+/// A host file may hold arbitrary bytes wherever no cluster is allocated (an image on a
+/// block device, a reused file).  Every second case gets a tail of stale bytes behind
+/// the last allocated cluster, so that anything relying on "fresh clusters read as
+/// zero" shows.
+pub fn garbage_tail(case: &Case, img: &mut Vec<u8>) {
+    if case.id % 2 == 1 || case.size >= (4 << 20) {
+        let cs = 1usize << case.cb;
+        let len = img.len().div_ceil(cs) * cs;
+        img.resize(len, 0);
+        let extra = (96 * cs).min(768 * 1024);
+        img.extend(std::iter::repeat(POISON_BYTE).take(extra));
+    }
+}
+
 pub fn case_images(case: &Case) -> Result<CaseImages, String> {
     if case.img == "format" {
-        let img = format_image(case.size, case.cb, case.ro, 1 << case.bsb).map_err(|_| "format err".to_string())?;
+        let mut img = format_image(case.size, case.cb, case.ro, 1 << case.bsb).map_err(|_| "format err".to_string())?;
+        garbage_tail(case, &mut img);
         return Ok(CaseImages { files: vec![img], comp: vec![], flat: vec![] });
     }
     let (top, back, mut rng) = built_layouts(case.seed, case.id, &case.img);
@@ -418,7 +478,9 @@ pub fn case_images(case: &Case) -> Result<CaseImages, String> {
     }
     let own: Vec<Option<u64>> = (0..top.states.len()).map(|g| Some(bt.own[g] as u64)).collect();
     let _ = spc_top;
-    let mut files = vec![bt.bytes];
+    let mut top_bytes = bt.bytes;
+    garbage_tail(case, &mut top_bytes);
+    let mut files = vec![top_bytes];
     if let Some(bbt) = bb {
         for (o, t) in &bbt.comp {
             comp.push(format!("back {} {}", o, t));
@@ -434,6 +496,58 @@ pub fn gen_ops(rng: &mut Rng, c: &mut Case, profile: Profile, nops: usize) {
     let bs = 1u64 << c.bsb;
     let cs = 1u64 << c.cb;
     let nops = rng.range((nops / 2).max(1) as u64, nops as u64) as usize;
+    let nops_total = nops;
+    let mut frag_step = 0u64;
+    // boundary grid for the validation profile: every (offset, length) pair x op kind
+    let mut grid: Vec<Op> = Vec::new();
+    let mut grid_pos = 0usize;
+    if profile == Profile::Validate {
+        let vs = c.size;
+        let offs = [
+            0u64,
+            1,
+            bs - 1,
+            bs,
+            cs - bs,
+            cs,
+            vs.saturating_sub(bs),
+            vs.saturating_sub(1),
+            vs,
+            vs + 1,
+            vs + bs,
+            align_down(vs, bs),
+            align_down(vs, bs).saturating_sub(bs),
+            align_down(vs, bs) + bs,
+            1 << 63,
+            u64::MAX - bs + 1,
+            u64::MAX - 1,
+            u64::MAX,
+            align_down(rng.below(vs), bs),
+        ];
+        let lens = [0u64, 1, bs - 1, bs, bs + 1, 2 * bs, cs, cs + bs, 3 * cs];
+        let dlens = [0u64, 1, cs - 1, cs, 2 * cs, vs, u64::MAX, u64::MAX / 2 + 7];
+        for &off in &offs {
+            for &len in &lens {
+                grid.push(Op::Read { off, len });
+                grid.push(Op::Write { off, len, tok: 0 });
+            }
+            for &len in &dlens {
+                grid.push(Op::Discard { off, len });
+            }
+        }
+        // deterministic shuffle
+        for i in (1..grid.len()).rev() {
+            let j = rng.below(i as u64 + 1) as usize;
+            grid.swap(i, j);
+        }
+    }
+    let profile_geom = profile;
+    let profile = match profile {
+        Profile::CrashySparse => Profile::Crashy,
+        Profile::Sparse => Profile::General,
+        p => p,
+    };
+    let _ = profile_geom;
     let mut k = 0u64;
     for _ in 0..nops {
         k += 1;
@@ -552,41 +666,61 @@ pub fn gen_ops(rng: &mut Rng, c: &mut Case, profile: Profile, nops: usize) {
                 _ => Op::Reopen { bsb: c.bsb, l2: None, rb: None },
             },
             Profile::Validate => {
-                let vs = c.size;
-                let offs = [
-                    0u64,
-                    1,
-                    bs - 1,
-                    bs,
-                    cs - bs,
-                    cs,
-                    vs.saturating_sub(bs),
-                    vs.saturating_sub(1),
-                    vs,
-                    vs + 1,
-                    vs + bs,
-                    align_down(vs, bs),
-                    1 << 63,
-                    u64::MAX - bs + 1,
-                    u64::MAX - 1,
-                    u64::MAX,
-                    align_down(rng.below(vs), bs),
-                ];
-                let lens = [0u64, 1, bs - 1, bs, bs + 1, 2 * bs, cs, cs + bs, 3 * cs];
-                let off = *rng.pick(&offs);
-                let len = *rng.pick(&lens);
-                match r {
-                    0..=34 => Op::Read { off, len },
-                    35..=64 => Op::Write { off, len, tok },
-                    65..=84 => {
-                        let dl = *rng.pick(&[0u64, 1, cs - 1, cs, 2 * cs, vs, u64::MAX, u64::MAX - off.min(u64::MAX - 1)]);
-                        Op::Discard { off, len: dl }
+                if r < 88 && !grid.is_empty() {
+                    // walk the boundary grid without replacement
+                    let g = grid[grid_pos % grid.len()].clone();
+                    grid_pos += 1;
+                    match g {
+                        Op::Write { off, len, .. } => Op::Write { off, len, tok },
+                        o => o,
                     }
-                    85..=92 => {
-                        let (off, len) = gen_range(&mut rng, &*c, 2);
-                        Op::Write { off, len, tok }
+                } else if r < 95 {
+                    let (off, len) = gen_range(&mut rng, &*c, 2);
+                    Op::Write { off, len, tok }
+                } else {
+                    Op::Flush
+                }
+            }
+            Profile::CrashySparse | Profile::Sparse => unreachable!(),
+            Profile::Frag => {
+                // phase 1: fill sequentially; phase 2: punch holes around refblock-slice
+                // boundaries; phase 3: multi-cluster writes that have to stitch runs
+                // across slices (retry / fragment branches of the allocator)
+                let ncl = c.size / cs;
+                let step = frag_step;
+                frag_step += 1;
+                let third = (nops_total / 3).max(1) as u64;
+                if step < third {
+                    let per = (ncl / third).max(1);
+                    let g0 = (step * per).min(ncl - 1);
+                    let n = per.min(ncl - g0).min(24).max(1);
+                    Op::Write { off: g0 * cs, len: n * cs, tok }
+                } else if step < 2 * third {
+                    if rng.chance(1, 6) {
+                        Op::Flush
+                    } else {
+                        let g0 = rng.below(ncl);
+                        let n = rng.range(1, 6).min(ncl - g0);
+                        Op::Discard { off: g0 * cs, len: n * cs }
                     }
-                    _ => Op::Flush,
+                } else {
+                    match rng.below(10) {
+                        0 => Op::Flush,
+                        1 => {
+                            let g0 = rng.below(ncl);
+                            let n = rng.range(1, 4).min(ncl - g0);
+                            Op::Discard { off: g0 * cs, len: n * cs }
+                        }
+                        2 => {
+                            let (off, len) = gen_range(&mut rng, &*c, 8);
+                            Op::Read { off, len }
+                        }
+                        _ => {
+                            let g0 = rng.below(ncl);
+                            let n = rng.range(2, 16).min(ncl - g0).max(1);
+                            Op::Write { off: g0 * cs, len: n * cs, tok }
+                        }
+                    }
                 }
             }
         };
